@@ -1,6 +1,7 @@
 package rules
 
 import (
+	"regexp"
 	"go/ast"
 	"go/token"
 	"go/types"
@@ -58,6 +59,9 @@ func runC03(p *core.Program, r *core.Report) {
 	// R9: every name the namer hands out went through the argument rewriter, which is what
 	// registers the packages of a generic instantiation's type arguments (shared with C11.R6)
 	namerRewriteRule(p, r, "R9")
+	c03R10(p, r)
+	c03R11(p, r)
+	c03R12(p, r)
 }
 
 // c03R8: rendering a snippet registers its imports with the tracker of the
@@ -676,5 +680,91 @@ func c03Tracker(p *core.Program, r *core.Report) {
 			}
 		}
 		r.Check(ok, "R4", f, spec.what, f.Node().Pos(), "single return of the map (entry)", "the accessor does not simply read the committed path->name binding: asking twice may give different names")
+	}
+}
+
+var qualifierText = regexp.MustCompile(`(^|[^A-Za-z0-9_./"%])([a-z][a-z0-9_]*)\.[A-Za-z_][A-Za-z0-9_]*`)
+
+// c03R10: the body and the import tracker grow together and neither shrinks: the tracker has no way to forget a
+// package (R4: never deleted from), so text that was rendered - and may be the only reference to a package it
+// registered - must stay. The body buffer of a file is only written to, measured and, at the end, read by the writer.
+func c03R10(p *core.Program, r *core.Report) {
+	const rule = "R10"
+	r.Floor(rule, 1)
+	grows := map[string]bool{"Write": true, "WriteString": true, "WriteByte": true, "WriteRune": true, "Len": true, "String": true, "Bytes": true, "Cap": true, "Grow": true, "Available": true, "AvailableBuffer": true, "ReadFrom": true}
+	n, bad := 0, 0
+	for _, f := range p.Funcs() {
+		if core.RelPkg(f.Pkg.PkgPath) != "pkg/gengo" || f.Body == nil {
+			continue
+		}
+		info := f.Info()
+		for _, c := range core.Calls(f.Body, true) {
+			sel, ok := ast.Unparen(c.Fun).(*ast.SelectorExpr)
+			if !ok || !isRole(p, core.FieldOf(info, sel.X), "file.body") {
+				continue
+			}
+			n++
+			if !grows[sel.Sel.Name] {
+				bad++
+				r.Bad(rule, f, "the rendered body is cut back or consumed: "+core.ExprStr(c.Fun), c.Pos(), "text that was rendered is removed from the file's body ("+sel.Sel.Name+") while the packages it registered stay in the import tracker: the import block lists a package the body no longer references (imported and not used)")
+			}
+		}
+	}
+	if n == 0 {
+		r.Anchor(rule, "method calls on the body buffer of the generated file")
+		return
+	}
+	if bad == 0 {
+		r.OK(rule, nil, "the body of a generated file only grows", token.NoPos, itoa(int64(n))+" uses of the body buffer are writes, measurements or the final read")
+	}
+}
+
+// c03R11: "none missing": every package qualifier in rendered text comes from the namer (which registers the package).
+// The printers of values, types and templates contain no string constant that spells a qualified identifier.
+func c03R11(p *core.Program, r *core.Report) {
+	const rule = "R11"
+	r.Floor(rule, 1)
+	n, bad := 0, 0
+	for _, f := range p.Funcs() {
+		rel := core.RelPkg(f.Pkg.PkgPath)
+		if (rel != "pkg/gengo/internal" && rel != "pkg/gengo/snippet" && rel != "pkg/namer") || f.Body == nil {
+			continue
+		}
+		info := f.Info()
+		// messages of panics and errors are not rendered text
+		msg := map[ast.Node]bool{}
+		for _, c := range core.Calls(f.Body, true) {
+			switch core.CalleeName(info, c) {
+			case "builtin.panic", "fmt.Errorf", "errors.New":
+				ast.Inspect(c, func(m ast.Node) bool { msg[m] = true; return true })
+			}
+		}
+		ast.Inspect(f.Body, func(m ast.Node) bool {
+			if lit, ok := m.(*ast.FuncLit); ok && lit != f.Lit {
+				return false
+			}
+			e, ok := m.(ast.Expr)
+			if !ok || msg[m] {
+				return true
+			}
+			s, isC := core.ConstString(info, e)
+			if !isC {
+				return true
+			}
+			if _, isLit := e.(*ast.BasicLit); !isLit {
+				if _, isID := e.(*ast.Ident); !isID {
+					return true // a constant expression: its literals are visited on their own
+				}
+			}
+			n++
+			if mm := qualifierText.FindStringSubmatch(s); mm != nil {
+				bad++
+				r.Bad(rule, f, "a package qualifier is spelled in a string constant: "+strconvQuote(s), e.Pos(), "the rendered text references package `"+mm[2]+"` by a hard-coded name: the package is not registered with the import tracker (used but not imported), and the name need not be the one the file binds it to")
+			}
+			return true
+		})
+	}
+	if bad == 0 {
+		r.OK(rule, nil, "no string constant of the printers spells a qualified identifier", token.NoPos, itoa(int64(n))+" string constants scanned")
 	}
 }
